@@ -239,20 +239,25 @@ def run_unit(unit_dir, rlimit=100, probes=True, keep=True):
         prim = [s for s in spans if s.get('is_primary')] or spans
         where = []
         tags = None
+        label = None
         item = None
         for s in spans:
             o = _origin_at(linemap, s['line_start'], s['column_start'])
             where.append({'at': _fmt_origin(o, None), 'label': s.get('label'),
                           'primary': bool(s.get('is_primary')), 'out_line': s['line_start']})
-            if o[0] == 'ov' and len(o) > 3 and tags is None:
-                # explicit clause tags on the failing clause line?
+            if o[0] == 'ov' and len(o) > 3:
+                # explicit clause tags / label on one of the lines of the failing clause?
                 try:
-                    ltxt = open(o[1]).read().split('\n')[o[2] - 1]
+                    alll = open(o[1]).read().split('\n')
+                    span = alll[o[2] - 1:o[2] + (s['line_end'] - s['line_start'])]
                 except Exception:
-                    ltxt = ''
-                ct = extract.clause_tags(ltxt, None)
-                if ct:
-                    tags = ct
+                    span = []
+                for ltxt in span:
+                    ct = extract.clause_tags(ltxt, None)
+                    if ct and tags is None:
+                        tags = ct
+                    if label is None:
+                        label = extract.clause_label(ltxt)
             it = item_for_line(asm.items, s['line_start'])
             if it is not None and (item is None or s.get('is_primary')):
                 # the function *being verified* is the one containing a span that
@@ -281,7 +286,8 @@ def run_unit(unit_dir, rlimit=100, probes=True, keep=True):
             props = tags or (item['props'] if item else [])
             locs = [w['at'] for w in where if w['primary']] or [w['at'] for w in where]
             rec.update(function=fname, props=props,
-                       obligation='%s/%s/%s@%s' % (unit, fname, kind, locs[0] if locs else '?'),
+                       obligation=('%s/%s/%s#%s' % (unit, fname, kind, label)) if label else
+                                  ('%s/%s/%s@%s' % (unit, fname, kind, locs[0] if locs else '?')),
                        assumed_item=bool(item and item.get('assumed')))
             res['failures'].append(rec)
         elif cls == 'undecided':
@@ -307,7 +313,7 @@ def run_unit(unit_dir, rlimit=100, probes=True, keep=True):
         if missing:
             res.update(status='undecided', reason='lost-anchor: functions in baseline no longer verified/present: %s' % missing[:5])
     # ---- vacuity probes
-    if probes and res['status'] == 'ok':
+    if probes and res['status'] in ('ok', 'failed'):
         ppath = os.path.join(out_dir, unit + '_probe.rs')
         pasm, _ = extract.assemble(unit_dir, ppath, probe=True)
         pl = pasm.linemap()
@@ -332,7 +338,7 @@ def run_unit(unit_dir, rlimit=100, probes=True, keep=True):
         res['probes'] = {'expected': len(expected), 'rejected': len(rejected),
                          'missing_body': missing,
                          'missing_loop': sorted(e for e in expected - rejected if not e.endswith('#0'))}
-        if missing:
+        if missing and res['status'] == 'ok':
             res.update(status='undecided', reason='vacuity probe verified (contradictory precondition?): %s' % missing[:5])
     res['total_wall_s'] = time.time() - t00
     return res
@@ -353,7 +359,17 @@ def accept(unit_dir):
             f.write(t + '\n')
     if r['status'] == 'undecided' and r.get('reason', '').startswith('new trusted'):
         r = run_unit(unit_dir, probes=False)
-    if r['status'] != 'ok':
+    known = []
+    kp = os.path.join(VERIF, 'known_findings.txt')
+    if os.path.exists(kp):
+        for l in open(kp):
+            m = re.match(r'known:\s+property=(\S+)\s+obligation=(\S+)\s+what=', l.strip())
+            if m:
+                known.append(m.group(2))
+    unlisted = [f for f in r['failures'] if not any(re.search(k, f['obligation']) for k in known)]
+    if r['status'] == 'failed' and not unlisted:
+        print('accepting with %d known finding(s)' % len(set(f['obligation'] for f in r['failures'])))
+    elif r['status'] != 'ok':
         print('NOT ACCEPTED: %s %s' % (r['status'], r.get('reason')))
         for f in r['failures']:
             print(f['obligation'])
